@@ -102,7 +102,7 @@ def check(ctx):
     d.base_timeout = 60
     bad = d.run_batch(schedcheck.corpus_cases("C14"))
     rng = ctx.rng("scen")
-    n = 60 if ctx.tier == "quick" else 1200
+    n = 60 if ctx.tier == "quick" else 5000
     batch = []
     for i in range(n):
         batch.append(("scen:%d" % i, case(rng)))
